@@ -55,4 +55,5 @@ def run(ctx, rep):
     rep.run(RT.rule_ordered_choice, ctx, rep, "G7")
     # G8: tree accessors never hand out, and tree code never modifies, shared mutable state
     rep.run(RA.rule_mutate_only_fresh, ctx, rep, "G8", "gtwrap/", G8_EXEMPT, min_sites=60)
+    rep.run(RG.rule_word_boundary, ctx, rep, "G9")
     rep.require_min("G7", 2)
